@@ -213,5 +213,66 @@ def r13_5(ctx):
 r13_5.rule_id = "R13.5"
 
 
-RULES = [r13_1, r13_2, r13_3, r13_4, r13_5]
-FLOORS = {"R13.1": 30, "R13.2": 100, "R13.3": 10, "R13.4": 10, "R13.5": 3}
+def r13_6(ctx):
+    """IterableList link protocol: both neighbours' data slots are pinned (LSB mark set by a CAS this thread won) while the position is
+    validated (pPrev->next re-read, find_prev re-scan) and while the new data / node is published; every pinned slot is released on every exit"""
+    n = 0
+    for F in ctx.db.funcs.values():
+        if not re.match(r"cds::intrusive::IterableList::(link_data|link_aux_node)$", F.q):
+            continue
+        for p in PathSim(F, bound=4000).run():
+            if p.outcome != "return":
+                continue
+            ev = p.events
+            pinned = {}        # slot location (noepoch) -> index of the winning mark CAS
+            released = {}
+            lo = None
+            for i, e in enumerate(ev):
+                if e.kind != "call":
+                    continue
+                op = atomic_op(e)
+                loc = noepoch(e.obj) if e.obj is not None else None
+                isdata = loc is not None and sv_field_path(loc)[-1:] == ["data"]
+                if isdata and (op or "").startswith("compare_exchange") and len(e.args) >= 2:
+                    newv = e.args[1]
+                    mark = any(x.kind == "call" and x.val == newv and x.q and x.q.endswith("operator|") and x.args and x.args[0] == e.args[0] and x.args[1] == C(1) for x in ev[:i])
+                    if mark:
+                        if _won(p, e) is True:
+                            pinned[loc] = i
+                    elif loc in pinned and loc not in released:
+                        # the reuse CAS replaces the pinned (marked) value of pPrev: publication; it also drops the pin when it wins
+                        n += 1
+                        ctx.check(len(pinned) - len(released) >= 2, "R13.6", F, "data is published into a reused node only while both neighbours are pinned", e.node, detail=R, sig="publish-pinned")
+                        released[loc] = i
+                elif isdata and op == "store" and loc in pinned and loc not in released:
+                    released[loc] = i
+                elif op is not None and (op or "").startswith("compare_exchange") and loc is not None and sv_field_path(loc)[-1:] == ["next"]:
+                    n += 1
+                    ctx.check(len(pinned) - len(released) >= 2, "R13.6", F, "a new node is linked only while both neighbours are pinned", e.node, detail=R, sig="publish-pinned")
+                elif (e.q and e.q.endswith("::find_prev")) or (op == "load" and loc is not None and sv_field_path(loc)[-1:] == ["next"] and _has_param(loc, F, "pos")):
+                    n += 1
+                    ctx.check(len(pinned) - len(released) >= 2, "R13.6", F, "the insert position is re-validated only while both neighbours are pinned", e.node,
+                              detail="a validation made before the slots are pinned can be invalidated before the marks are set: the value is then linked behind a larger "
+                              "key (lost insert / duplicate key). " + R, sig="validate-pinned")
+            n += 1
+            ctx.check(set(pinned) <= set(released), "R13.6", F, "every pinned data slot is released on every exit", None,
+                      detail="pinned: %d, released: %d. A slot left marked blocks erase/insert at that node forever. %s" % (len(pinned), len(released), R), sig="pins-released")
+    if n < 20:
+        ctx.broken("IterableList link protocol sites not found (%d)" % n)
+r13_6.rule_id = "R13.6"
+
+
+def _has_param(sv, F, name):
+    tgt = [("p", pr["d"], pr["n"]) for pr in F.params if pr["n"] == name]
+    if not tgt:
+        return False
+
+    def walk(x):
+        if x == tgt[0]:
+            return True
+        return isinstance(x, tuple) and any(walk(y) for y in x if isinstance(y, tuple))
+    return walk(sv)
+
+
+RULES = [r13_1, r13_2, r13_3, r13_4, r13_5, r13_6]
+FLOORS = {"R13.1": 30, "R13.2": 100, "R13.3": 10, "R13.4": 10, "R13.5": 3, "R13.6": 20}
